@@ -1,12 +1,13 @@
 #!/bin/sh
 # Offline setup: warm the Go build cache for the harness (plain and -race) against /repo.
-set -e
-cd "$(dirname "$0")/../harness"
+# The checks rebuild what they need themselves; a failure here is only a cold cache.
+cd "$(dirname "$0")/../harness" || exit 1
 export GOFLAGS=-mod=mod GOPROXY=off GOSUMDB=off GOTOOLCHAIN=local
 mkdir -p ../out/bin
 for d in cmd/*/; do
-  go build -tags verif -o ../out/bin/setup-$(basename $d) ./$d
+  go build -tags verif -o ../out/bin/setup-$(basename $d) ./$d || echo "warning: $d does not build yet"
 done
-go build -race -tags verif -o ../out/bin/setup-race ./rp
+go build -race -tags verif -o ../out/bin/setup-race ./rp || true
+rm -f ../out/bin/setup-*
 java -cp /opt/veriftools/tla/tla2tools.jar tlc2.TLC -h >/dev/null 2>&1 || true
 echo setup ok
